@@ -429,6 +429,48 @@ CLAIMED = {
             "differing from its own unless the origin path is empty, no matching record that makes derive raise. Observation: "
             "owns() raises (does not return False) on a matching record with a hardened index.",
             "§5 C14"),
+    "C18": ("proof",
+            "PARTIAL: Lean 4 theorems for everything that is logic (Elements transaction codec = wire format, PSET proprietary fields "
+            "lossless, derivation of every blinding factor, verify()/unblind() decision logic sound, balance relative to explicit "
+            "algebraic laws, blech32 / confidential addresses) + model/implementation correspondence + DIFFERENTIAL RUNS on the real "
+            "libsecp256k1-zkp for the cryptographic half (observed, not proved)",
+            "PROVED (Props/C18.lean, all inputs, no bound): the model's Liquid transaction parser accepts exactly the Elements wire "
+            "encoding of well-formed transactions (issuance / peg-in flags in bits 31 / 30 of the index, issuance block, explicit "
+            "big-endian or committed value, asset, nonce, the four input and two output witness fields) and parse∘serialise is the "
+            "identity; truncations, trailing bytes, unknown flag bytes and superfluous witness records are refused; every key-value pair "
+            "of a PSET input / output scope (15 + 12 proprietary fields, unknown proprietary keys, Liquid utxos, all bitcoin fields) is "
+            "written back with identical bytes (outputs: under the spelling of the PSET version), a duplicated or wrong-length field is "
+            "refused; PSET.blind: the asset / value blinding factor of output i is the tagged hash liquid/abf / liquid/vbf of "
+            "txseed||i, the LAST blinded output's factor is the library's blind-sum over exactly the listed values and factors, the ECDH "
+            "key is the public key of the tagged hash liquid/range_proof, commitments are the library's functions of exactly these, "
+            "unselected outputs are untouched; verify() = True implies every consistency predicate (stated asset+factor or asset proof "
+            "against the asset commitment; stated value+factor or exact-value proof against the value commitment, through the verified "
+            "generator) was evaluated and held, and the pre-fix logic violated this for value 0 (witness theorem); unblind stores data "
+            "only after both commitment equalities; RELATIVE TO THE HYPOTHESIS ZkpLaws (points are a module over the scalars, "
+            "commit = v*gen + r*G, generator = H(asset) + r*G, blind-sum returns what it is specified to) the commitments of inputs and "
+            "blinded outputs differ by exactly the plain amounts (balance); blech32 created checksums verify (GF(2) linearity, no "
+            "bv_decide), blech32 encode/decode and the confidential address of a witness-v0 script round-trip (partial: embit's decoder "
+            "ignores the witness version — witness theorem). CORRESPONDED every run: all these models against the real code (codecs on "
+            "generated + mutated bytes and the recorded PSETs/transaction; verify()/unblind() under an oracle dictating every library "
+            "answer, with the consistency predicate evaluated independently; the real PSET.blind under symbolic library stand-ins; "
+            "blech32 / addresses / SLIP-77). ONLY OBSERVED each run in a subprocess on the real C library (never a proof): blind(seed) "
+            "twice and in two interpreters gives identical bytes; every blinded output verifies, its range / surjection proof verify "
+            "in the library, it unblinds under the recipient key (also through LInputScope.unblind) to exactly value, asset, vbf, abf "
+            "and not under another key; pedersen_verify_tally balances (explicit inputs/outputs and fee as v*H); ~40 single-field "
+            "falsifications per blinded output (value +-1/:=0/random, asset, abf/vbf bits, swapped or re-computed commitments, "
+            "corrupted/absent/foreign asset and value proofs) all make verify() fail; values 0, 1, 2^52-1, 1-3 assets, explicit and "
+            "confidential inputs, 1-4 blinded outputs. Four small fixes (fixes/*.diff) precede the model: verify() truthiness (D26), "
+            "strict Liquid readers, lossless PSET fields, unblind asserts. Known finding D53 (version-0 PSET drops issuance / peg-in / "
+            "output nonce of the global transaction) is reported, not fixed. GOALs: whole-PSET composition, scope-level Nodup, base58 "
+            "confidential P2SH addresses.",
+            "Trusted: Lean kernel + propext/Quot.sound/Classical.choice; harness generators, oracle / symbolic stand-ins and the "
+            "worker; CPython/hashlib. libsecp256k1-zkp is modelled as arbitrary deterministic functions: hiding/binding of Pedersen "
+            "commitments and soundness of range / surjection proofs are cryptographic assumptions; that the library satisfies ZkpLaws "
+            "is its documented contract, corroborated only by pedersen_verify_tally in the differential runs. verify() does not consult "
+            "the output's range_proof / surjection_proof (only asset_proof / value_proof or the factors); those are checked against the "
+            "library directly. embit carries unusual prefix bytes of confidential fields verbatim (not validated). The Elements "
+            "signature hash is not part of this property.",
+            "§5 C18"),
     "C20": ("proof",
         "Lean 4 theorems over all thread counts, program lengths and schedules of a locking-protocol model (serialisability, "
         "no deadlock) + probe-based translator for the binding layer's lock/buffer facts (decide +kernel obligations over "
